@@ -6,10 +6,10 @@ package main
 //   galel N k | galels N ks | modinv N g | dlog N g | ordertwo rt N | nttindex n N g
 //   adv-innersum N batch n | adv-replicate N batch n | adv-innersum-bgv N maxSlots batch n
 //   adv-replicate-bgv N ringN batch n | adv-trace rt logNRing logN         (sorted lists)
-//   pts|replicate|innerfunction|rotateandadd lay N t batch n vec           -> reqs vec
-//   innersum-bgv|innersum-ckks lay N t slots batch n vec                   -> reqs vec
+//   pts|replicate|innerfunction lay N t hasP batch n vec                   -> reqs vec
+//   innersum-bgv|innersum-ckks lay N t hasP slots batch n vec              -> reqs vec
 //   trace lay rt logNRing t logN vec                                       -> reqs vec
-//   rotate lay N t k vec | conj lay rt N t vec | rothoisted lay N t ks vec -> reqs vec(s)
+//   rotate lay N t k vec | conj lay rt N t vec | rothoisted lay N t hasP ks vec -> reqs vec(s)
 //   *-reqs variants: only the request trace is compared (value depends on stale buffers)
 // Probes (predicates on the real code): galEl_add, galEl_mod_slots, modInv_spec, dlog_galEl,
 //   nttIndex_perm, keys_sufficient, sum_spec, ckks_round_margin, adv_has_no_extra.
@@ -120,6 +120,14 @@ type c11Ctx struct {
 	dec    *rlwe.Decryptor
 
 	maxRoundErr float64
+	noPRuns     int
+}
+
+func (x *c11Ctx) hp() string {
+	if x.hasP {
+		return "1"
+	}
+	return "0"
 }
 
 func (x *c11Ctx) tag() string {
@@ -602,10 +610,13 @@ func (x *c11Ctx) run(c *Ctx, opName, args string, adv []uint64, v []int64, want 
 
 	plain := opName == "rotate" || opName == "conj" || opName == "innerfunction" || opName == "trace"
 	if !x.hasP && !plain {
-		// PartialTracesSum dereferences the (nil) P ring: reported once per context by the
-		// probe hoisted_without_P; nothing to tie here.
-		c.Count("skipped-hoisted-noP")
-		return
+		// the hoisted operations need P: they must return an error (a dozen ties per context suffice)
+		x.noPRuns++
+		if x.noPRuns > 12 {
+			c.Count("skipped-hoisted-noP")
+			return
+		}
+		want = nil
 	}
 	evk, reqs, missing := x.keysFor(adv, plain)
 	ev, add := x.rlweEval(evk)
@@ -636,6 +647,13 @@ func (x *c11Ctx) run(c *Ctx, opName, args string, adv []uint64, v []int64, want 
 		c.Emit(line, Vec(*reqs)+" "+c11I64Vec(got))
 	default:
 		c.Emit(line, Vec(*reqs))
+	}
+	if !x.hasP && !plain {
+		det = ""
+		if status != "err" {
+			det = "status=" + status + " (want an error: parameters without P)"
+		}
+		c.Probe("hoisted_without_P", fmt.Sprintf("%s %s %s", x.tag(), opName, args), "C11-noP-panic", det)
 	}
 	if want != nil {
 		det = ""
@@ -728,9 +746,6 @@ func c11OneCtx(c *Ctx, x *c11Ctx) {
 			// distinct keys of the output map
 			v := x.randVec(c, 1)
 			adv := x.rp.GaloisElements(rots)
-			if !x.hasP {
-				break // hoisted rotations need P (property statement); request trace covered by pts-reqs
-			}
 			evk, reqs, missing := x.keysFor(adv, false)
 			e := x.ckksEv.WithKey(evk)
 			ct := x.encrypt(v)
@@ -741,7 +756,14 @@ func c11OneCtx(c *Ctx, x *c11Ctx) {
 				det = "missing=" + Vec(*missing)
 			}
 			c.Probe("keys_sufficient", fmt.Sprintf("%s rothoisted %s", x.tag(), c11IntVec(rots)), "C11-keys-rothoisted", det)
-			line := fmt.Sprintf("rothoisted %s %s %s", base, c11IntVec(rots), c11I64Vec(v))
+			line := fmt.Sprintf("rothoisted %s %s %s %s", base, x.hp(), c11IntVec(rots), c11I64Vec(v))
+			if !x.hasP {
+				det = ""
+				if status != "err" {
+					det = "status=" + status + " (want an error: parameters without P)"
+				}
+				c.Probe("hoisted_without_P", fmt.Sprintf("%s rothoisted %s", x.tag(), c11IntVec(rots)), "C11-noP-panic", det)
+			}
 			if status != "" {
 				c.Emit(line, status)
 			} else {
@@ -767,7 +789,7 @@ func c11OneCtx(c *Ctx, x *c11Ctx) {
 	beyond := [][2]int{{1, x.slots + 1}, {3, x.slots}, {x.cols, 3}, {x.cols - 1, 5}, {2 * x.cols, 2}, {x.cols + 1, 3}, {5, x.cols}, {x.cols / 2, 6}}
 	for _, bn := range append(pairs, beyond...) {
 		b, n := bn[0], bn[1]
-		args := fmt.Sprintf("%s %d %d", base, b, n)
+		args := fmt.Sprintf("%s %s %d %d", base, x.hp(), b, n)
 		c.Count("pairs:" + x.tag())
 
 		// RotateAndAdd = PartialTracesSum, keys for rlwe.GaloisElementsForInnerSum
@@ -802,7 +824,7 @@ func c11OneCtx(c *Ctx, x *c11Ctx) {
 					want = x.refSum(v, b, n)
 				}
 			}
-			x.run(c, "innersum-bgv", fmt.Sprintf("%s %d %d %d", base, x.slots, b, n), x.bgvP.GaloisElementsForInnerSum(b, n), v, want, true,
+			x.run(c, "innersum-bgv", fmt.Sprintf("%s %s %d %d %d", base, x.hp(), x.slots, b, n), x.bgvP.GaloisElementsForInnerSum(b, n), v, want, true,
 				func(_ *rlwe.Evaluator, _ func(a, b, c *rlwe.Ciphertext) error, ct, out *rlwe.Ciphertext, evk rlwe.EvaluationKeySet) error {
 					return x.bgvEv.WithKey(evk).InnerSum(ct, b, n, out)
 				})
@@ -816,7 +838,7 @@ func c11OneCtx(c *Ctx, x *c11Ctx) {
 			if accepted {
 				want = x.refSum(v, b, n)
 			}
-			x.run(c, "innersum-ckks", fmt.Sprintf("%s %d %d %d", base, x.slots, b, n), x.ckksP.GaloisElementsForInnerSum(b, n), v, want, true,
+			x.run(c, "innersum-ckks", fmt.Sprintf("%s %s %d %d %d", base, x.hp(), x.slots, b, n), x.ckksP.GaloisElementsForInnerSum(b, n), v, want, true,
 				func(_ *rlwe.Evaluator, _ func(a, b, c *rlwe.Ciphertext) error, ct, out *rlwe.Ciphertext, evk rlwe.EvaluationKeySet) error {
 					return x.ckksEv.WithKey(evk).InnerSum(ct, b, n, out)
 				})
@@ -826,7 +848,7 @@ func c11OneCtx(c *Ctx, x *c11Ctx) {
 	// ---- rejected / degenerate arguments
 	for _, bn := range [][2]int{{0, 3}, {3, 0}, {0, 0}, {1, 1}, {x.cols, 1}} {
 		b, n := bn[0], bn[1]
-		args := fmt.Sprintf("%s %d %d", base, b, n)
+		args := fmt.Sprintf("%s %s %d %d", base, x.hp(), b, n)
 		v := x.randVec(c, 1)
 		var want []int64
 		if n == 1 {
@@ -839,7 +861,7 @@ func c11OneCtx(c *Ctx, x *c11Ctx) {
 		c.Count("degenerate-args")
 	}
 
-	// arguments the code accepts without an error although no documented sum exists / is computed
+	// arguments that must be rejected (non-positive count) or summed correctly (batchSize = 0)
 	type bad struct {
 		op   string
 		b, n int
@@ -848,10 +870,13 @@ func c11OneCtx(c *Ctx, x *c11Ctx) {
 	}
 	for _, d := range []bad{
 		{"pts", 3, -2, "C11-nonpositive-count", "PartialTracesSum accepts n<0 (returns nil, opOut left untouched)"},
+		{"pts", 3, math.MinInt64, "C11-nonpositive-count", "PartialTracesSum accepts n<0 (returns nil, opOut left untouched)"},
 		{"innerfunction", 2, 0, "C11-nonpositive-count", "InnerFunction accepts n=0 (returns nil, opOut left untouched)"},
 		{"innerfunction", 2, -3, "C11-nonpositive-count", "InnerFunction accepts n<0 (returns nil, opOut left untouched)"},
-		{"innerfunction", 0, 3, "C11-innerfunction-batch0", "InnerFunction accepts batchSize=0 and returns ctIn instead of 3*ctIn"},
-		{"innerfunction", 0, 4, "C11-innerfunction-batch0", "InnerFunction accepts batchSize=0 and returns ctIn instead of 4*ctIn"},
+		{"innerfunction", 0, 3, "C11-innerfunction-batch0", "InnerFunction(batchSize=0, n=3) does not return 3*ctIn"},
+		{"innerfunction", 0, 4, "C11-innerfunction-batch0", "InnerFunction(batchSize=0, n=4) does not return 4*ctIn"},
+		{"innerfunction", 0, 7, "C11-innerfunction-batch0", "InnerFunction(batchSize=0, n=7) does not return 7*ctIn"},
+		{"innerfunction", 1 << 62, 5, "C11-innerfunction-batch0", "InnerFunction(batchSize=2^62, n=5) does not return 5*ctIn"},
 	} {
 		d := d
 		v := x.randVec(c, 1)
@@ -859,7 +884,7 @@ func c11OneCtx(c *Ctx, x *c11Ctx) {
 		if d.n > 0 {
 			want = x.refSum(v, d.b, d.n)
 		}
-		args := fmt.Sprintf("%s %d %d", base, d.b, d.n)
+		args := fmt.Sprintf("%s %s %d %d", base, x.hp(), d.b, d.n)
 		evk, reqs, _ := x.keysFor(rlwe.GaloisElementsForInnerSum(x.rp, d.b, d.n), d.op != "pts")
 		if !x.hasP && d.op == "pts" {
 			continue
@@ -882,6 +907,9 @@ func c11OneCtx(c *Ctx, x *c11Ctx) {
 			}
 		} else {
 			c.Emit(fmt.Sprintf("%s %s %s", d.op, args, c11I64Vec(v)), status)
+			if want != nil || status != "err" {
+				det = "status=" + status + ": " + d.note
+			}
 		}
 		c.Probe("rejects_or_sums", fmt.Sprintf("%s %s %s", x.tag(), d.op, args), d.key, det)
 		c.Count("degenerate-args")
@@ -890,7 +918,7 @@ func c11OneCtx(c *Ctx, x *c11Ctx) {
 	if x.hasP {
 		b, n := 1<<62, 5
 		v := x.randVec(c, 1)
-		args := fmt.Sprintf("%s %d %d", base, b, n)
+		args := fmt.Sprintf("%s %s %d %d", base, x.hp(), b, n)
 		evk, reqs, missing := x.keysFor(rlwe.GaloisElementsForInnerSum(x.rp, b, n), false)
 		var fresh *rlwe.Evaluator // fresh buffers: accQP is all zero, so the stale-buffer read is deterministic
 		if x.name == "bgv" {
@@ -920,18 +948,6 @@ func c11OneCtx(c *Ctx, x *c11Ctx) {
 		c.Count("overflow-args")
 	}
 
-	if !x.hasP {
-		v := x.randVec(c, 1)
-		evk, _, _ := x.keysFor(rlwe.GaloisElementsForInnerSum(x.rp, 1, 2), false)
-		ev, _ := x.rlweEval(evk)
-		status := c11TryErr(func() error { return ev.PartialTracesSum(x.encrypt(v), 1, 2, x.newCt()) })
-		det := ""
-		if status == "panic" {
-			det = "PartialTracesSum(ct,1,2) panics (nil pointer in DecomposeNTT) instead of returning an error"
-		}
-		c.Probe("hoisted_without_P", x.tag(), "C11-noP-panic", det)
-	}
-
 	// ---- Trace
 	for l := -1; l <= x.logN+1; l++ {
 		l := l
@@ -950,22 +966,31 @@ func c11OneCtx(c *Ctx, x *c11Ctx) {
 			}()
 			adv = rlwe.GaloisElementsForTrace(x.rp, l)
 		}()
-		if advPanics && l >= 0 {
-			// the advertised-list function itself panics although Trace accepts the argument:
-			// report, then give Trace the keys it actually asks for so that its trace can be tied.
-			c.Probe("adv_trace_defined", fmt.Sprintf("%s %d", x.tag(), l), "C11-adv-trace-panic", "GaloisElementsForTrace panics for an argument Trace accepts")
-			for i := l; i < x.logN-1; i++ {
-				adv = append(adv, x.rp.GaloisElement(1<<uint(i)))
-			}
+		logRot := x.logN - 1
+		if x.rt == "ci" {
+			logRot = x.logN
 		}
-		saved := x.maxRoundErr
-		valueTie := x.rt == "std"
-		x.run(c, "trace", fmt.Sprintf("%s %s %d %d %d", x.lay, x.rt, x.logN, x.t, l), adv, v, x.refTrace(v, l), valueTie,
+		inRange := 0 <= l && l <= logRot
+		det := ""
+		if advPanics == inRange {
+			det = fmt.Sprintf("GaloisElementsForTrace(%d): panics=%v although Trace accepts=%v", l, advPanics, inRange)
+		}
+		c.Probe("adv_trace_defined", fmt.Sprintf("%s %d", x.tag(), l), "C11-adv-trace-panic", det)
+		x.run(c, "trace", fmt.Sprintf("%s %s %d %d %d", x.lay, x.rt, x.logN, x.t, l), adv, v, x.refTrace(v, l), true,
 			func(ev *rlwe.Evaluator, _ func(a, b, c *rlwe.Ciphertext) error, ct, out *rlwe.Ciphertext, _ rlwe.EvaluationKeySet) error {
 				return ev.Trace(ct, l, out)
 			})
-		if !valueTie {
-			x.maxRoundErr = saved // garbage values of the conjugate-invariant Trace are reported by sum_spec
+		if !inRange {
+			st := c11TryErr(func() error {
+				evk, _, _ := x.keysFor(nil, true)
+				ev, _ := x.rlweEval(evk)
+				return ev.Trace(x.encrypt(v), l, x.newCt())
+			})
+			det = ""
+			if st != "err" {
+				det = fmt.Sprintf("Trace(logN=%d) status=%q, want an error", l, st)
+			}
+			c.Probe("trace_rejected", fmt.Sprintf("%s %d", x.tag(), l), "C11-sum-trace-"+x.name, det)
 		}
 	}
 }
